@@ -309,8 +309,9 @@ def oracle_received_bytes(c):
         if m[0] == 'SR':
             return None
         if m[0] != 'CUF':
-            # any other command: whatever was in progress is no longer judged, and a path it names is no longer expected
-            cur, clean = None, False
+            # any other command: the file in progress (it stays in progress: only its last part closes it) is no longer judged,
+            # and a path the command names is no longer expected
+            clean = False
             for t in m[1:2]:
                 if t.startswith('x'):
                     q = bytes.fromhex(t[1:])
@@ -320,8 +321,8 @@ def oracle_received_bytes(c):
         q, data, mt, more = bytes.fromhex(m[1][1:]), bytes.fromhex(m[2][1:]), m[3], m[4] == '1'
         for k in [k for k in expect if k == q or k.startswith(q + b'/') or q.startswith(k + b'/')]:
             expect.pop(k)
-        if cur == q and clean:
-            acc += data
+        if cur == q:
+            acc += data                           # (clean or not: it continues the file in progress)
         elif cur is not None:
             cur, acc, clean = q, data, False      # a part for another file while one is in progress: not what a boss sends
         else:
